@@ -266,6 +266,13 @@ ElseIfs(eis, i, M) ==      \* returns [taken, r]
        ELSE IF Val(c.M, c.d).i = 1 THEN [taken |-> TRUE, r |-> Block(eis[i].b, c.M)]
        ELSE ElseIfs(eis, i + 1, c.M)
 
+\* a binary operator applied to two cells: the built-in meaning, else the script functions defined under the operator's name
+Apply2(M, op, da, db) ==
+  LET v == BinOp(M, op, Val(M, da), Val(M, db))  fs == SelectSeq(FunsNamed(M, op), LAMBDA f : Len(f.params) = 2) IN
+  IF v.t = "bad" /\ v.s = "ovf" THEN R(M, "fuel", 0)
+  ELSE IF v.t = "bad" /\ v.s = "ee" /\ fs # <<>> THEN TryFuns(M, Ordered(M, fs, <<da, db>>), 1, <<da, db>>)
+  ELSE IF v.t = "bad" THEN Err(M, IF v.s = "arith" THEN "ex" ELSE "ee") ELSE IF v.t = "str" THEN Temp(M, v) ELSE CTemp(M, v)
+
 \* C20: while an error unwinds, every node it passes appends itself to the error's call stack (AST_Node_Impl::eval does this for
 \* every node; the reference records the nodes that carry a label "lab": the failing identifier / call and every enclosing call)
 Ev(e, M) == LET r == EvNode(e, M) IN
@@ -277,10 +284,12 @@ EvNode(e, M) ==
     [] e.k = "id" -> (LET d == Lookup(M, e.n) IN IF d = 0 THEN Err(M, "ee") ELSE Norm(M, d))
     [] e.k = "bin" ->
         (LET a == Ev(e.l, M) IN IF a.ctl # "norm" THEN a ELSE
-         LET b == Ev(e.r, a.M) IN IF b.ctl # "norm" THEN b ELSE
-         LET v == BinOp(b.M, e.op, Val(b.M, a.d), Val(b.M, b.d)) IN
-         IF v.t = "bad" /\ v.s = "ovf" THEN R(b.M, "fuel", 0) ELSE
-         IF v.t = "bad" THEN Err(b.M, IF v.s = "arith" THEN "ex" ELSE "ee") ELSE IF v.t = "str" THEN Temp(b.M, v) ELSE CTemp(b.M, v))
+         LET b == Ev(e.r, a.M) IN IF b.ctl # "norm" THEN b ELSE Apply2(b.M, e.op, a.d, b.d))
+    [] e.k = "foldr" ->          \* Partial_Fold's node: the right operand is a constant kept in the node (Fold_Right_Binary_Operator::do_oper)
+        (LET a == Ev(e.l, M) IN IF a.ctl # "norm" THEN a ELSE
+         LET b == Ev(e.c, a.M) IN
+         IF Val(b.M, a.d).t = "int" /\ Val(b.M, b.d).t # "int" THEN Err(b.M, "ee")        \* an arithmetic left value takes the numeric shortcut whatever the constant is
+         ELSE Apply2(b.M, e.op, a.d, b.d))
     [] e.k = "and" ->
         (LET a == Ev(e.l, M) IN IF a.ctl # "norm" THEN a ELSE
          IF Val(a.M, a.d).t # "bool" THEN Err(a.M, "ee") ELSE
